@@ -385,4 +385,11 @@ def corpus_descs():
     out.append(([cc.param("sid", dict(k="coded", dct=cc.std(cc.BUINT, 8), v=0x22)),
                  cc.param("f", dict(k="value", dop=dict(k="eop", s=cc.struct([cc.param("l", dict(k="value", dop=dl0, dflt=None))])), dflt=None))],
                 False, [{"f": []}], [bytes.fromhex(h) for h in ("220100", "2200", "22010100", "2201", "220201")]))
+    # VALUE parameters with a PHYSICAL-DEFAULT-VALUE: the default applies only if the caller passes nothing -- not for the
+    # values 0, "" and b"" (which are false in a boolean context)
+    out.append(([cc.param("sid", dict(k="coded", dct=cc.std(cc.BUINT, 8), v=0x2E)),
+                 cc.param("n", dict(k="value", dop=u8(), dflt=5)),
+                 cc.param("txt", dict(k="value", dop=cc.simple(cc.minmax(cc.BASCII, 0, 4, 0)), dflt="ab")),
+                 cc.param("blob", dict(k="value", dop=cc.simple(cc.minmax(cc.BBYTES, 0, 4, 2)), dflt=b"\x01\x02"))], False,
+                [{}, {"n": 0}, {"n": 0, "txt": "", "blob": b""}, {"n": 7, "txt": "x"}, {"blob": b""}, {"txt": ""}]))
     return out
